@@ -203,6 +203,20 @@ def build(spec, plain=False):
         else:
             team = BaseTeam(name=tms["name"], ID=tms["name"])
         for ws in tms.get("workers", []):
+            if ws.get("skills_inplace"):
+                # built like `BaseWorker(name)` and filled afterwards by item assignment (as user code often does)
+                w = WkC(name=ws["name"], ID=ws.get("id") or ws["name"], cost_per_time=ws.get("cost", 0.0))
+                for k_, v_ in ws.get("skills", {}).items():
+                    w.workamount_skill_mean_map[k_] = v_
+                for k_, v_ in ws.get("fskills", {}).items():
+                    w.facility_skill_map[k_] = v_
+                w.absence_time_list = list(ws.get("absence", []))
+                w._vh = 200 + nres[0]
+                nres[0] += 1
+                team.add_worker(w)
+                m.workers.append(w)
+                m.byname[w.ID] = w
+                continue
             w = WkC(
                 name=ws["name"],
                 ID=ws.get("id") or ws["name"],
